@@ -259,12 +259,20 @@ func genC03(g *gen, c *sim.Case, tier string) {
 		g.patterns = []string{"*", "a*", "/a", "a", "/*", "b"}
 		c.Knobs["slash_keys"] = 1
 	}
-	if g.patterns == nil && r.Chance(1, 30) {
+	if g.patterns == nil && r.Chance(1, 20) {
 		// a big population written and read in big batches (results must stay complete and aligned)
-		pop := sim.Pick(r, 40, 300, 1200)
+		pop := sim.Pick(r, 40, 300, 1200, 2100)
 		c.Knobs["many_keys"] = int64(pop)
 		c.Sched = sched(r, time.Second, 400000)
 		rng := func() string {
+			if r.Chance(1, 2) {
+				// batch sizes at and next to round numbers (page and buffer sizes)
+				sz := sim.Pick(r, 1, 2, 10, 16, 64, 100, 128, 255, 256, 257, 500, 512, 999, 1000, 1001, 1023, 1024, 1025, 2000, 2047, 2048)
+				if sz <= pop {
+					a := r.Intn(pop - sz + 1)
+					return fmt.Sprintf("#k:%d:%d:1", a, a+sz)
+				}
+			}
 			a := r.Intn(pop)
 			b := a + 1 + r.Intn(pop-a)
 			return fmt.Sprintf("#k:%d:%d:%d", a, b, sim.Pick(r, 1, 1, 2, 7))
